@@ -181,7 +181,7 @@ Proof.
   intros Hb Ho Hrel. pose proof Hrel as (Hid & Hp & Hl).
   unfold sig_input, sig_in_spec. cbn [maw mq mfree mlast mmis].
   set (code := match input with c :: _ => c | [] => 0 end).
-  destruct (sig_reject_ok ss input (mkm mf q aw last mm) Hb Ho) as (rr & Hr1 & Hr2).
+  destruct (sig_reject_ok ss input buf osz (mkm mf q aw last mm) Hb Ho) as (rr & Hr1 & Hr2).
   destruct (pend ss) eqn:Ep; cbn [is_transmitted]; rewrite ?andb_false_r.
   - exists ss, rr, (mkm mf q aw last mm). destruct Hp as [-> ->]. auto.
   - exists ss, rr, (mkm mf q aw last mm). destruct Hp as [-> ->]. auto.
@@ -191,7 +191,7 @@ Proof.
       * eexists _, [], _. split; [apply cres_ok_nil|]. cbn [reply_opt is_none negb]. split; [reflexivity|].
         cbn [mfree mq maw mlast]. split; [reflexivity|].
         unfold sigrel. cbn [ident pend is_transmitted]. rewrite next_ident_succ. split; [apply succ_id_range|].
-        split; [auto|]. destruct last as [l|]; [|exact I]. rewrite Ep in Hl. cbn in Hl. subst. reflexivity.
+        split; [auto|]. destruct last as [l|]; [|exact I]. cbn in Hl. subst. reflexivity.
       * eexists ss, [], _. split; [apply cres_ok_nil|]. cbn [reply_opt is_none negb]. split; [reflexivity|].
         cbn [mfree mq maw mlast]. auto.
     + exists ss, rr, (mkm mf None (Some (ident ss)) last mm). auto.
